@@ -10,6 +10,7 @@ function T(tag) {
   else if (tag === "Tget") Object.defineProperty(o, "then", {get: function() { log("th:Tget"); throw "tg"; }});
   else if (tag === "Tmulti") o.then = function(r, j) { log("th:Tmulti"); r("m1"); j("m2"); r("m3"); };
   else if (tag === "Tnc") o.then = 5;
+  else if (tag === "Trthrow") o.then = function(r, j) { log("th:Trthrow"); r("q1"); throw "qe"; };
   return o;
 }
 function show(a) {
@@ -115,14 +116,14 @@ def random_program(pid, rnd, maxops=10, np_max=14):
         if c in ("resolve", "reject") and exposed:
             p = rnd.choice(exposed)
             if c == "resolve":
-                x = rnd.choice(["v1", "v1", "self", "Tok", "Tthrow", "Tget", "Tmulti", "Tnc"] + ["P%d" % k for k in visible_now(ops)])
+                x = rnd.choice(["v1", "v1", "self", "Tok", "Tthrow", "Tget", "Tmulti", "Tnc", "Trthrow"] + ["P%d" % k for k in visible_now(ops)])
                 ops.append({"op": "resolve", "p": p, "x": x})
             else:
                 ops.append({"op": "reject", "p": p, "x": "e%d" % len(ops)})
         elif c == "then" and np_ < np_max:
             vis = visible_now(ops)
             p = rnd.choice(vis)
-            behs = ["none", "val", "thr", "undef", "Tok", "Tmulti", "Tnc"] + ["P%d" % k for k in vis] + ["res%d" % k for k in exposed]
+            behs = ["none", "val", "thr", "undef", "Tok", "Tmulti", "Tnc", "Trthrow"] + ["P%d" % k for k in vis] + ["res%d" % k for k in exposed]
             ops.append({"op": "then", "p": p, "bf": rnd.choice(behs), "br": rnd.choice(["none", "none", "val", "thr"] + ["P%d" % k for k in vis])})
             np_ += 1
         elif c == "finally" and np_ < np_max:
